@@ -42,6 +42,22 @@ TYPE_SPEC = {
     "background-geopoint": ("trigger", None, "geopoint", None, None),
     "osm": ("upload", "osm/*", "binary", None, None),
 }
+# metadata (preload) types, including the legacy spellings and the uri: variants (ODK XForms spec, "Preload attributes";
+# JavaRosa property names): type -> (bind type, jr:preload, jr:preloadParams)
+PRELOAD_SPEC = {
+    "start": ("dateTime", "timestamp", "start"), "start time": ("dateTime", "timestamp", "start"), "get start time": ("dateTime", "timestamp", "start"),
+    "end": ("dateTime", "timestamp", "end"), "end time": ("dateTime", "timestamp", "end"), "get end time": ("dateTime", "timestamp", "end"),
+    "today": ("date", "date", "today"), "get today": ("date", "date", "today"),
+    "deviceid": ("string", "property", "deviceid"), "device id": ("string", "property", "deviceid"), "get device id": ("string", "property", "deviceid"),
+    "imei": ("string", "property", "deviceid"),
+    "subscriberid": ("string", "property", "subscriberid"), "subscriber id": ("string", "property", "subscriberid"), "get subscriber id": ("string", "property", "subscriberid"),
+    "simserial": ("string", "property", "simserial"), "sim id": ("string", "property", "simserial"), "get sim id": ("string", "property", "simserial"),
+    "phonenumber": ("string", "property", "phonenumber"), "get phone number": ("string", "property", "phonenumber"),
+    "username": ("string", "property", "username"), "email": ("string", "property", "email"),
+    "uri:deviceid": ("string", "property", "uri:deviceid"), "uri:subscriberid": ("string", "property", "uri:subscriberid"),
+    "uri:simserial": ("string", "property", "uri:simserial"), "uri:phonenumber": ("string", "property", "uri:phonenumber"),
+    "uri:username": ("string", "property", "uri:username"), "uri:email": ("string", "property", "uri:email"),
+}
 # spellings that must have entries equal to the canonical type's entry
 TYPE_ALIAS_GROUPS = [
     ("integer", "int"),
